@@ -54,7 +54,11 @@ def snapshot(recs):
             if "{closure" in d or "::_::" in d:
                 continue
             consts[d] = {"ty": r.get("ty", ""), "s": r.get("s", "")}
-    return {"fns": fns, "adts": adts, "consts": consts}
+    derived = []
+    for r in recs:
+        if r.get("rec") == "impl" and r.get("derived") and r.get("self_adt") and r.get("trait", "").rsplit("::", 1)[-1] in ("PartialEq", "Eq", "PartialOrd", "Ord", "Hash", "Clone", "Default"):
+            derived.append([r["self_adt"], r["trait"].rsplit("::", 1)[-1]])
+    return {"fns": fns, "adts": adts, "consts": consts, "derived": sorted(map(list, set(map(tuple, derived))))}
 
 
 def _replace_token(s, new, old):
